@@ -653,6 +653,45 @@ func (g *c01Gen) nullishShape(budget int) *c01E {
 	return e
 }
 
+// ltNotShape: `<` or `<<` whose right operand is printed with a leading `!<literal>` (directly, in parentheses, or as
+// the chosen branch of a conditional with a constant test): the printer's `<!--` avoidance (isLtNot) keeps the literal
+func (g *c01Gen) ltNotShape(budget int) *c01E {
+	r := g.r
+	lit := func() *c01E {
+		if r.Chance(70) {
+			return c01N([]int{0, 1, 5, 12000, 1000}[r.Intn(5)])
+		}
+		return c01Str([]string{"", "s"}[r.Intn(2)])
+	}
+	nl := c01U("!", lit())
+	var rhs *c01E
+	switch r.Intn(6) {
+	case 0:
+		rhs = nl
+	case 1:
+		rhs = c01G(nl)
+	case 2:
+		rhs = c01G(c01C(c01N([]int{1, 1000, 5}[r.Intn(3)]), nl, g.leaf()))
+	case 3:
+		rhs = c01G(c01C(c01N(0), g.leaf(), nl))
+	case 4:
+		rhs = c01G(c01C(c01V(r.Pick(c01Vars)), nl, g.leaf()))
+	default:
+		rhs = c01U("!", nl)
+	}
+	if r.Chance(30) {
+		rhs = c01B([]string{"+", "*", "-"}[r.Intn(3)], rhs, g.leaf())
+	}
+	op := "<"
+	if r.Chance(40) {
+		op = "<<"
+	}
+	if e, ok := c01Mk(op, []*c01E{g.expr(budget - 2), rhs}, 0); ok {
+		return e
+	}
+	return g.leaf()
+}
+
 // expr generates an expression with about `budget` operator nodes.
 func (g *c01Gen) expr(budget int) *c01E {
 	r := g.r
@@ -661,6 +700,9 @@ func (g *c01Gen) expr(budget int) *c01E {
 	}
 	if r.Chance(5) {
 		return g.nullishShape(budget)
+	}
+	if r.Intn(250) == 0 {
+		return g.ltNotShape(budget)
 	}
 	for try := 0; try < 20; try++ {
 		var f string
@@ -1213,6 +1255,7 @@ var c01FixedCorpus = []string{
 	"x=\"\\\n\"?1:2", "x=!\"\\\n\"", "if(a in b){}", "x=void(a in b)", "function t(p){if((p||'')instanceof q){}}x=t(a)",
 	"function t(p1){class C{static{let e=f(1);k(e,p1)}}}t(5)", "for(var i of[1]){const[]=[]}", "for(var i of[1]){function t(){}}f(typeof t)", "if(a){f(1)}else{async function t(){}}",
 	"let x=2;if(a){throw 1}else{let x=3;h(x)}h(x)", "if(a)throw 1;else{let l=1}", "function t(){let x=2;if(a){return 1}else{let x=3;h(x)}h(x)}t()",
+	"false%(10<(1000?!12000:a))", "x=a<(1?!5:b);f(x)", "x=a<<(0?b:!\"s\")+1;f(x)",
 	"x=a===null||a===undefined", "x=a==null?b:a", "x=a?true:false", "x=!a?b:c", "x=a?a:b", "x=(f(1),a)?a:g(2)",
 }
 
